@@ -377,7 +377,8 @@ class RawVoltageBackend(object):
 
         # Pad header if directio
         if directio:
-            f.write(bytearray(512 - (80 * header_lines % 512))) 
+            # No padding when the header already ends on a 512-byte boundary
+            f.write(bytearray(-(80 * header_lines) % 512)) 
 
         header_dict['PKTIDX'] += self.samples_per_block
 
